@@ -147,28 +147,35 @@ def probe(c, out):
         if any(not (0 < t <= T) for t in tr):
             fails.append(("window", "target %s: spike outside (0, T]: %s" % (key, [t for t in tr if not (0 < t <= T)][:3])))
         if all(p["type"] != "poisson_generator" for p in parts):
-            # fully predictable: concatenation in stimulus order
-            pos = 0
-            for p in parts:
+            # fully predictable: concatenation in stimulus order.  The multiple of 1/rate that falls on T itself may or may not
+            # be delivered (the property exempts it), so both readings are tried before a failure is reported.
+            def account(pi, pos):
+                """-> None if the parts from pi on account for tr[pos:], else the first complaint"""
+                if pi == len(parts):
+                    return None if pos == len(tr) else ("accumulate", "target %s: %d spikes delivered, %d accounted for by its stimuli" % (key, len(tr), pos))
+                p = parts[pi]
                 if p["type"] == "list":
                     exp = sorted(v for v in list_values(p["list"]) if v <= T)
                     got = tr[pos:pos + len(exp)]
                     if got != exp:
-                        fails.append(("list", "target %s: list stimulus %r delivered %s, expected %s" % (key, p["list"], got, exp)))
-                    pos += len(exp)
-                else:
-                    isi = 1 / float(p["rate"])
-                    nfull = int(math.floor(T / isi * (1 - 1e-9)))
-                    seg = tr[pos:pos + nfull]
-                    for k in range(1, nfull + 1):
-                        if k - 1 >= len(seg) or abs(seg[k - 1] - k * isi) > 1e-9 * max(1.0, k) * isi * 8:
-                            fails.append(("regular", "target %s: regular rate %s T %s: interior multiple k=%d (%r) missing" % (key, p["rate"], T, k, k * isi)))
-                            break
-                    # at most one more (the boundary one)
-                    extra = 1 if len(tr) > pos + nfull and abs(tr[pos + nfull] - (nfull + 1) * isi) <= 1e-9 * (nfull + 1) * isi * 8 and (nfull + 1) * isi <= T * (1 + 1e-9) else 0
-                    pos += nfull + extra
-            if pos != len(tr):
-                fails.append(("accumulate", "target %s: %d spikes delivered, %d accounted for by its stimuli" % (key, len(tr), pos)))
+                        return ("list", "target %s: list stimulus %r delivered %s, expected %s" % (key, p["list"], got, exp))
+                    return account(pi + 1, pos + len(exp))
+                isi = 1 / float(p["rate"])
+                nfull = int(math.floor(T / isi * (1 - 1e-9)))
+                seg = tr[pos:pos + nfull]
+                for k in range(1, nfull + 1):
+                    if k - 1 >= len(seg) or abs(seg[k - 1] - k * isi) > 1e-9 * max(1.0, k) * isi * 8:
+                        return ("regular", "target %s: regular rate %s T %s: interior multiple k=%d (%r) missing" % (key, p["rate"], T, k, k * isi))
+                first = account(pi + 1, pos + nfull)
+                if first is None:
+                    return None
+                boundary = len(tr) > pos + nfull and abs(tr[pos + nfull] - (nfull + 1) * isi) <= 1e-9 * (nfull + 1) * isi * 8 and (nfull + 1) * isi <= T * (1 + 1e-9)
+                if boundary and account(pi + 1, pos + nfull + 1) is None:
+                    return None
+                return first
+            complaint = account(0, 0)
+            if complaint is not None:
+                fails.append(complaint)
         elif len(parts) == 1:
             if any(b - a < 1e-6 * (1 - 1e-9) for a, b in zip(tr, tr[1:])) or (tr and tr[0] < 1e-6 * (1 - 1e-9)):
                 fails.append(("poisson", "target %s: Poisson gaps below the minimum interval / not increasing" % key))
